@@ -18,3 +18,30 @@ void h_c15_gcg(void)
         (void)r;
         KV_REACH();
 }
+
+/* C15 (P in the row length, 3 rows unwound): GCGMultchecksum with GCGchecksum replaced by its contract (proved above):
+ * the total "Check:" of the MSF header is in 0..9999 and is computed from rows of the declared alignment length, each
+ * inside its own buffer (the replaced call's precondition is ASSERTED here: row buffer holds alnlen + 1 bytes).          */
+#include "msa_build.h"
+#ifndef KV_N
+#define KV_N 3
+#endif
+void h_c15_gcg_mult(void)
+{
+        int w = kv_in_int();
+        struct msa* m;
+        int i, r;
+        KV_ASSUME(w >= 0 && w <= 1000);
+        m = kv_mk_msa_raw(KV_N);
+        for(i = 0; i < KV_N; i++){
+                m->sequences[i] = kv_mk_seq_raw(0, 1);
+                free(m->sequences[i]->seq);
+                m->sequences[i]->seq = malloc((size_t)w + 1);
+                __CPROVER_assume(m->sequences[i]->seq != NULL);
+        }
+        m->aligned = ALN_STATUS_FINAL;
+        m->alnlen = w;
+        r = GCGMultchecksum(m);
+        KV_CHECK(0 <= r && r <= 9999, "GCGMultchecksum: the total checksum is a number of at most four digits");
+        KV_REACH();
+}
